@@ -62,9 +62,15 @@ class Plain(object):
         return "<Plain>"
 
 
+class BadRepr(object):
+    """an argument that genuinely cannot be serialized: brine refuses it and its repr() raises"""
+    def __repr__(self):
+        raise ValueError("no repr")
+
+
 OTHER_BY_CODE = {0: lambda: [1, 2], 1: lambda: {"a": 1}, 2: lambda: {3}, 3: lambda: bytearray(b"ab"), 4: lambda: CInt(5),
                  5: lambda: CStr("x"), 6: lambda: CBytes(b"x"), 7: lambda: CTuple((1, 2)), 8: lambda: CFrozenset([1]),
-                 9: lambda: CFloat(1.5), 10: lambda: CComplex(1, 2), 99: lambda: Plain()}
+                 9: lambda: CFloat(1.5), 10: lambda: CComplex(1, 2), 98: lambda: BadRepr(), 99: lambda: Plain()}
 
 
 def materialise(v):
@@ -130,7 +136,13 @@ SPECIAL = {  # class-aware constructor arguments (args text, kwargs)
     "UnicodeDecodeError": [("( S117,116,102 B6162 I0 I1 S114 )", {}), ("( S101 B I5 I2 S )", {})],
     "UnicodeEncodeError": [("( S117,116,102 S97,98 I0 I1 S114 )", {}), ("( S101 S55296 I7 I9 S114 )", {})],
     "UnicodeTranslateError": [("( S97,98 I0 I1 S114 )", {})],
-    "SyntaxError": [("( S109 ( S102 I1 I2 S116 ) )", {}), ("( S109 ( S102 I1 I2 S116 I3 I4 ) )", {}), ("( S109 )", {})],
+    "SyntaxError": [("( S109 ( S102 I1 I2 S116 ) )", {}), ("( S109 ( S102 I1 I2 S116 I3 I4 ) )", {}), ("( S109 )", {}),
+                    # the traceback module fails on these (non-text `text`, non-int `lineno`): dump must still succeed
+                    ("( S109 ( S102 I1 I2 I5 ) )", {}), ("( S109 ( S102 S97 S98 S116 ) )", {})],
+    # arguments that cannot be serialized (repr() raises; an int beyond the interpreter's digit limit): the fallback record
+    "ValueError": [("( O98 )", {}), ("( I1 O98 S120 )", {}), ("( I1%s )" % ("0" * (c04.LIMIT + 50)), {})] if c04.LIMIT else [("( O98 )", {})],
+    "LookupError": [("( O98 )", {})],
+    "RuntimeError": [("( I-1%s S120 )" % ("0" * (c04.LIMIT + 50)), {})] if c04.LIMIT else [],
     "ImportError": [("( S109 )", {"name": "S110", "path": "S112"}), ("( )", {"name": "O0"})],
     "AttributeError": [("( S109 )", {"name": "S110", "obj": "O99"}), ("( S109 )", {"name": "S110", "obj": "I5"})],
     "NameError": [("( S109 )", {"name": "S110"})],
@@ -337,8 +349,10 @@ def capture(exc):
         return sys.exc_info()
 
 
-def model_line_rt(s, kind, r, env, fmt, table, rec):
-    return "vin rt %s%s %s %s %s %s %s %s %s %s %s" % (s, kind, r, env, fmt, table, rec[1], rec[2], rec[3], rec[4], rec[5])
+def model_line_rt(s, kind, mode, r, env, fmt, table, rec):
+    """mode: d = vinegar.dump alone, e = through Connection._send_exception"""
+    return "vin rt %s%s%s %s %s %s %s %s %s %s %s %s %s" % (s, kind, mode, r, env, fmt, table, rec[1], rec[2], rec[3], rec[4],
+                                                         rec[5], rec[7])
 
 
 def direct_product(spec, configs, with_tb=True):
@@ -350,15 +364,25 @@ def direct_product(spec, configs, with_tb=True):
     rec = ve.extract_record(t, v, tb)
     m, c = t.__module__, t.__name__
     env, fmt, table, info = ve.environment(m, c, rec[6])
-    info.update(m=m, c=c, exc=v, tbtext=ve.format_tb(t, v, tb))
+    info.update(m=m, c=c, exc=v, tbtext=ve.format_tb(t, v, tb)[0])
     wires = {}
     for s, r in configs:
         sf, rf = flags(s), flags(r)
         if s[:2] not in wires:
-            payload = vinegar.dump(t, v, tb, sf[0], sf[1])
-            wires[s[:2]] = (brine.load(brine.dump(payload)), valtext.canon(payload))
+            try:
+                payload = vinegar.dump(t, v, tb, sf[0], sf[1])
+            except Exception as ex:  # noqa   (dump itself raises: compared as such)
+                wires[s[:2]] = (None, "err " + ve.err_name(ex))
+            else:
+                try:
+                    wires[s[:2]] = (brine.load(brine.dump(payload)), valtext.canon(payload))
+                except Exception:  # noqa
+                    raise Skip("brine cannot put the dumped exception on the wire (end-to-end cases cover the fallback)")
         wire, pay = wires[s[:2]]
-        line = model_line_rt(s[:2] + "FF", rec[0], r, env, fmt, table, rec)
+        line = model_line_rt(s[:2] + "FF", rec[0], "d", r, env, fmt, table, rec)
+        if wire is None:
+            yield s, r, line, dict(pay=pay, dump_failed=True, delta=[], seen=pay), info
+            continue
         obs = observe_load(wire, rf, m, c, info["slots"])
         obs["pay"] = pay
         yield s, r, line, obs, info
@@ -514,11 +538,11 @@ def run_exc_e2e(pair, spec, s, r, sync=True):
     if "skip" in cap:
         raise Skip(cap["skip"])
     if "rec" in cap:
-        line = model_line_rt(s, cap["rec"][0], r, cap["env"], cap["fmt"], cap["table"], cap["rec"])
+        line = model_line_rt(s, cap["rec"][0], "e", r, cap["env"], cap["fmt"], cap["table"], cap["rec"])
         info = cap["info"]
         info.update(m=cap["m"], c=cap["c"])
     else:
-        line = model_line_rt(s, rec0[0], r, "FFmm", "N", "( )", rec0)
+        line = model_line_rt(s, rec0[0], "e", r, "FFmm", "N", "( )", rec0)
         info = dict(m=t.__module__, c=t.__name__, importable=False, slots={})
     info["exc"] = exc
     return line, obs, info
